@@ -1,8 +1,9 @@
+import re
 from typing import Union
 
 from pydbml.classes import Column, Enum, Expression
 from pydbml.renderer.dbml.default.renderer import DefaultDBMLRenderer
-from pydbml.renderer.dbml.default.utils import comment_to_dbml, note_option_to_dbml, quote_string, prepare_text_for_dbml
+from pydbml.renderer.dbml.default.utils import comment_to_dbml, note_option_to_dbml, quote_string, name_to_dbml
 from pydbml.renderer.sql.default.utils import get_full_name_for_sql
 
 
@@ -16,6 +17,13 @@ def default_to_str(val: Union[Expression, str, int, float]) -> str:
         return val.dbml
     else:  # int or float or bool
         return str(val)
+
+
+def type_to_dbml(type_: str) -> str:
+    '''Column type as the grammar reads it back: a word, word(args), word[] or schema.word; anything else quoted'''
+    if re.fullmatch(r'[A-Za-z0-9_]+(\[\]|\.[A-Za-z0-9_]+|\([^()\n]*\))?', type_):
+        return type_
+    return f'"{type_}"'
 
 
 def render_options(model: Column) -> str:
@@ -35,7 +43,7 @@ def render_options(model: Column) -> str:
     if model.properties:
         if model.table and model.table.database and model.table.database.allow_properties:
             for key, value in model.properties.items():
-                options.append(f'{key}: {quote_string(value)}')
+                options.append(f'{name_to_dbml(key)}: {quote_string(value)}')
 
     if options:
         return f' [{", ".join(options)}]'
@@ -49,7 +57,7 @@ def render_column(model: Column) -> str:
     if isinstance(model.type, Enum):
         result += get_full_name_for_sql(model.type)
     else:
-        result += model.type
+        result += type_to_dbml(model.type)
 
     result += render_options(model)
     return result
